@@ -271,6 +271,21 @@ def pool_rules(repo, res):
         return ["accepted although id 11 is used by the static obstacle"]
 
     report("PAIR-ATOMIC", "add_objects", "lanelet network one of whose ids is used by an obstacle", add_network_clash, "adding with a used id must raise ValueError and leave the scenario unchanged")
+
+    def add_network_twins():
+        w = World(repo)
+        new = NetModel(repo, "new lanelet network")
+        new.store["lanelet"][71] = mk(repo, "lanelet", 71)
+        new.store["traffic_sign"][71] = mk(repo, "traffic_sign", 71)  # the same id as the lanelet of the same network
+        new.obj.model = new
+        before = w.snapshot()
+        try:
+            w.call("add_objects", [new.obj])
+        except _Raise as r:
+            return [] if w.snapshot() == before else ["the scenario changed although the network was rejected"]
+        return ["accepted although a lanelet and a traffic sign of the network share the id 71"]
+
+    report("PAIR-ATOMIC", "add_objects", "lanelet network two of whose own objects share an id", add_network_twins, "two contained objects must not share an id: a network whose own elements collide is rejected and leaves the scenario unchanged")
     # ---- removing
     for kind in kinds:
         def rem_ok(kind=kind):
